@@ -74,7 +74,9 @@ def gen_scenario(rng):
             if not f:
                 f = {(labels[0],): 1}
     return {"spin": spin, "labels": labels, "f": f, "steps": steps, "extra": rng.choice([1, 2, 0.5]),
-            "fork": rng.choice([None, None, "copy", "add0", "mul1", "ctor", "neg"])}
+            "fork": rng.choice([None, None, "copy", "add0", "mul1", "ctor", "neg"]),
+            "rebind": rng.choice([None, None, None, "copy", "add0", "mul1", "ctor", "neg", "refresh", "refresh"]),
+            "remap": rng.random() < 0.25, "arg_form": rng.choice(["dict", "dict", "model", "pc"])}
 
 
 def gate_like_scenarios():
@@ -115,15 +117,23 @@ def run_scenario(sc, sid, first_id):
     try:
         with warnings.catch_warnings():
             warnings.simplefilter("ignore")
-            for st in sc["steps"]:
+            for si_, st in enumerate(sc["steps"]):
+                if sc.get("rebind") and si_ > 0:
+                    H = cs.rebound(H, sc["rebind"])         # the scenario continues with an equal model derived from H
                 if st["mode"] == "cmp":
-                    arg = dict(st["P"])
+                    # the polynomial is handed over as a dict or as a model object of the caller
+                    form_ = sc.get("arg_form", "dict")
+                    arg = dict(st["P"]) if form_ == "dict" else ((qv.PUSO if spin else qv.PUBO)(st["P"]) if form_ == "model"
+                                                                  else (qv.PCSO if spin else qv.PCBO)(st["P"]))
                     snap = dict(arg)
                     kw = {"lam": lam}
                     if st["rel"] != "eq":
                         kw["log_trick"] = st["lt"]
                     getattr(H, "add_constraint_%s_zero" % st["rel"])(arg, **kw)
-                    unchanged = unchanged and arg == snap
+                    unchanged = unchanged and dict(arg) == snap
+                    # what the caller does with its own polynomial afterwards must not reach the model
+                    arg[()] = arg.get((), 0) + 7
+                    arg[(labels[0],)] = arg.get((labels[0],), 0) + 3
                     cons_rec.append({"mode": "cmp", "rel": st["rel"], "P": list(st["P"].items()), "gate": "AND", "geq": False, "ga": [],
                                      "ops": [], "lam": lam})
                 else:
@@ -134,6 +144,8 @@ def run_scenario(sc, sid, first_id):
                     cons_rec.append({"mode": "gate", "rel": "eq", "P": [], "gate": st["gate"], "geq": st["geq"],
                                      "ga": list(st["a"][2].items()) if st["geq"] else [], "ops": [list(o[2].items()) for o in st["ops"]],
                                      "lam": lam})
+            if sc.get("rebind"):
+                H = cs.rebound(H, sc["rebind"])
             if sc.get("fork"):
                 # a model derived from H is given further constraints; H itself must not notice (DESIGN 3, C03)
                 try:
@@ -157,6 +169,16 @@ def run_scenario(sc, sid, first_id):
                 remove_ok = ra == {k: v for k, v in sol.items() if not cs.is_anc(k)}
             except KeyError as e:
                 raised = "KeyError in solve_bruteforce: %s" % str(e)[:60]
+            if sc.get("remap") and not raised:
+                # an earlier conversion, then the user renumbers the variables: later conversions and convert_solution follow
+                # (placed after the brute force, which edits and restores the model's constant)
+                try:
+                    H.to_qubo()
+                    H.to_puso()
+                except Exception:       # noqa
+                    pass
+                mp = H.mapping
+                H.set_mapping({k_: len(mp) - 1 - v_ for k_, v_ in mp.items()})
             forms = [("self", H, spin, None)]
             if not raised:
                 for tgt, sp in (("pubo", False), ("puso", True), ("qubo", False), ("quso", True)):
@@ -219,7 +241,7 @@ def run_scenario(sc, sid, first_id):
 
 
 def describe(sc):
-    return {"spin": sc["spin"], "labels": repr(sc["labels"]), "f": repr(sc["f"]), "extra_weight": sc["extra"], "fork": sc.get("fork"),
+    return {"spin": sc["spin"], "labels": repr(sc["labels"]), "f": repr(sc["f"]), "extra_weight": sc["extra"], "fork": sc.get("fork"), "rebind": sc.get("rebind"), "remap": sc.get("remap"), "arg_form": sc.get("arg_form"),
             "steps": [{k: (repr(v) if k in ("P", "a", "ops") else v) for k, v in st.items()} for st in sc["steps"]]}
 
 
